@@ -89,6 +89,21 @@ def check_valid(hyps, goal, rlimit=None, want_model=False, use_cvc5=True, timeou
     return check_smt2(to_smt2(hyps, goal, get_model=want_model), timeout=timeout, want_model=want_model, use_cvc5=use_cvc5)
 
 
+def quick_valid(hyps, goal, timeout=2.0):
+    """Cheap entailment probe used DURING symbolic execution (e-matching only, one short z3 run): True only when proved."""
+    fd, path = tempfile.mkstemp(suffix=".smt2")
+    with os.fdopen(fd, "w") as fh:
+        fh.write(to_smt2(hyps, goal))
+    try:
+        first, out, dt = _run([Z3_BIN, f"-T:{max(1, int(timeout))}", "-smt2", "smt.mbqi=false", "smt.auto_config=false"], path, timeout)
+    finally:
+        try:
+            os.unlink(path)
+        except OSError:
+            pass
+    return first == "unsat"
+
+
 def satisfiable(formulas, timeout=3):
     """Vacuity probe: sat / unsat / unknown."""
     s = z3.Solver()
